@@ -307,6 +307,12 @@ levels:
 					defer wg.Done()
 					var n int64
 					for i := range next {
+						if !deadline.IsZero() && time.Now().After(deadline) {
+							tmu.Lock()
+							timedOut = true
+							tmu.Unlock()
+							return
+						}
 						c := &SeqCtx{}
 						_, _, k := s.apply(c, nf[i], -1, true)
 						n += k
@@ -319,6 +325,10 @@ levels:
 			}
 			wg.Wait()
 			res.Transitions += cnt
+			if timedOut {
+				res.Exhaustive = false
+				res.CapsHit = append(res.CapsHit, fmt.Sprintf("time_limit=%s in final oracle of depth %d", opt.TimeLimit, d+1))
+			}
 			for i, v := range viol {
 				if v != nil && record(v, nf[i]) {
 					res.Exhaustive = false
@@ -327,6 +337,9 @@ levels:
 					break levels
 				}
 			}
+		}
+		if timedOut {
+			break
 		}
 		completedDepth = d + 1
 		res.MaxDepth = completedDepth
